@@ -1023,7 +1023,20 @@ class AbsInt:
                 path.callpos.append(len(path.blocks) - 1)
                 res = None
                 if self.decide_call:
+                    # callbacks that fold std predicates need the values behind `&self` arguments
+                    def _dr(a_):
+                        if isinstance(a_, tuple) and a_ and a_[0] == 'ref':
+                            if a_[1] in env:
+                                return env[a_[1]]
+                            if a_[1].endswith('.*') and a_[1][:-2] in env:
+                                return ('deref', env[a_[1][:-2]])      # a reborrow of what an (opaque) pointer value designates
+                        return a_
+                    ad = tuple(_dr(a_) for a_ in argvals)
+                    if ad != argvals:
+                        t = dict(t)
+                        t['argvals_deref'] = ad
                     res = self.decide_call(name, argvals, t)
+                    t = bl['term']
                 if res is None and len(argvals) == 2 and name.endswith(('PartialEq>::eq', 'PartialEq::eq', 'PartialEq>::ne', 'PartialEq::ne')):
                     # comparison of two known field-less enum values (derived PartialEq compares the discriminants)
                     ab = []
